@@ -634,6 +634,14 @@ def run(chk):
         chk.add_results("snax_xdma", pmap(case_xdma, xcases, chunks=2))
     if only in (None, "hwpe"):
         chk.add_results("snax_hwpe_mult", pmap(case_hwpe, [0]))
+    if only in (None, "phs"):
+        # snax_phs: the values written to phs_switch_<i> configure switch i of the element so that it computes the kernel
+        # (the functional check of C20 on a fixed set of three-kernel histories, where muxes precede two-way chooses)
+        from .c20 import case_history
+
+        fixed = [("mul", "sq_plus_b", "add_mul"), ("sub_mul_b", "three_chain", "three"), ("add", "mul_sub", "add_mul"), ("sub", "rsub", "sub_mul_b", "mul_add_r")]
+        hist = [tuple(p) for f in fixed for p in itertools.permutations(f)][:: (2 if quick else 1)]
+        chk.add_results("snax_phs_switch_values", pmap(case_history, [(h, False) for h in hist], chunks=4))
     chk.bounds = dict(alu_configs=len(cases), gemmx_shapes=len(gcases), xdma_cases=len(xcases))
-    chk.outside = ["snax_phs switch values (covered functionally by C20)", "gemmx with symbolic stride patterns (symbolic division)",
+    chk.outside = ["snax_phs switch values beyond the fixed histories of the snax_phs section (C20 covers the rest)", "gemmx with symbolic stride patterns (symbolic division)",
                    "xdma extensions whose kernel is not selected yet in the source (maxpool, memset, transpose: never active)"]
